@@ -160,7 +160,9 @@ NumMul(a, b) ==
     [] ka = "tiny" \/ kb = "tiny" -> Inexact
     [] OTHER ->
         LET x == Abs(a.n) y == Abs(b.n) IN
-        IF x > MaxInt \div y THEN Inexact
+        IF x % Den = 0 /\ (x \div Den) <= MaxN \div y THEN MkFin(s * ((x \div Den) * y))       \* an integer factor: no intermediate overflow
+        ELSE IF y % Den = 0 /\ (y \div Den) <= MaxN \div x THEN MkFin(s * (x * (y \div Den)))
+        ELSE IF x > MaxInt \div y THEN Inexact
         ELSE LET p == x * y IN
              IF p % Den # 0 THEN Inexact ELSE MkFin(s * (p \div Den))
 
@@ -611,7 +613,7 @@ Index(v, k) ==      \* read  v at k
           [] OTHER -> DictGet(v.d, KeyOf(k))
     [] OTHER -> Err
 
-MaxIndex == 40      \* writes further out are a resource question
+MaxIndex == 300     \* writes further out are a resource question
 
 (* One level of the write path: the container (mysterious becomes an empty *)
 (* array) and key give the slot's current value; PutSlot stores it back.   *)
@@ -677,10 +679,12 @@ Join(v, p) ==
           ELSE IF \E i \in 1..Len(all) : all[i].t = "str1" THEN Unk
           ELSE Str(JoinStrs(all, IF p.t = "noparam" THEN "" ELSE p.s))
 
-(* code points the model can name; any other valid scalar value gives AnyChar *)
-CodeChars == [c \in {32, 44, 48, 49, 65, 97, 98, 120, 233} |->
-                CASE c = 32 -> " " [] c = 44 -> "," [] c = 48 -> "0" [] c = 49 -> "1" [] c = 65 -> "A"
-                  [] c = 97 -> "a" [] c = 98 -> "b" [] c = 120 -> "x" [] c = 233 -> "~"]
+(* code points the model can name: printable ASCII, tab, line feed and U+00E9; any other valid scalar value gives AnyChar *)
+CodeChars == [c \in (32..126) \cup {9, 10, 233} |->
+                CASE c = 9 -> "\t" [] c = 10 -> "\n" [] c = 233 -> "~"
+                  [] c = 126 -> "?"                     \* never used: `~` is the place-holder, see NamedCode
+                  [] OTHER -> CharAt(Ascii, c - 31)]
+NamedCode(c) == c \in DOMAIN CodeChars /\ c # 126
 
 Cast(v, p) ==
   CASE v.t = "num" ->
@@ -690,7 +694,7 @@ Cast(v, p) ==
                [] v.n % Den # 0 \/ v.n < 0 -> Err
                [] OTHER -> LET c == v.n \div Den IN
                            IF c > 1114111 \/ (c >= 55296 /\ c <= 57343) THEN Err
-                           ELSE IF c \in DOMAIN CodeChars THEN Str(CodeChars[c]) ELSE AnyChar
+                           ELSE IF NamedCode(c) THEN Str(CodeChars[c]) ELSE AnyChar
     [] v.t = "str" ->
         CASE p.t = "noparam" -> LET n == ParseNum(v.s) IN IF n.t = "none" THEN Err ELSE n
           [] p.t = "num" ->
